@@ -47,5 +47,12 @@ var classes = []class{
 	// a reserved word or "!" right after a redirection is an ordinary word
 	// for bash and dash (">f then" runs "then"; "done >f do" is an error);
 	// the parser decides by position in the statement instead.
+	// "> 2>&1": after a redirection operator bash reads "2>&1" as another
+	// redirection and reports a missing target; the parser takes "2" as the
+	// target word.
+	{"C12-redirect-target-io-number", regexp.MustCompile(`(>>|>&|<&|>|<)[ \t]+[0-9]+[<>]`)},
+	// "for x" + newline + "; do": dash accepts the semicolon on the next
+	// line, the parser (and bash) reject it.
+	{"C12-for-newline-semicolon", regexp.MustCompile(`(^|[\s;&|(){}])for\s+[A-Za-z_][A-Za-z0-9_]*[ \t]*\n\s*;`)},
 	{"C12-reserved-word-after-redirect", regexp.MustCompile(`[0-9]*(>>|>&|<&|>|<)[ \t]*[^\s;&|()]+[ \t]+(!|if|then|elif|else|fi|while|until|do|done|for|in|case|esac|\{|\})([\s;&|()]|$)`)},
 }
